@@ -409,9 +409,11 @@ def rule_R6_roundtrip(ctx, prj) -> bool:
     wfi = prj.func("codelimit.common.report.ReportWriter:ReportWriter.to_json")
     rfi = prj.func("codelimit.common.report.ReportReader:ReportReader.from_json")
     try:
-        for with_repo in (True, False):
+        for with_repo in (True, False, "empty"):
             for version in ("9.9.9-tag", None):
-                case = f"repository={'present' if with_repo else 'absent'}, version={version!r}"
+                if with_repo == "empty" and version is None:
+                    continue
+                case = f"repository={'present with empty owner, name and branch' if with_repo == 'empty' else 'present' if with_repo else 'absent'}, version={version!r}"
                 lab = ReportLab(prj)
                 rep = lab.sample(with_repo, version)
                 texts = {}
